@@ -6,6 +6,7 @@ import (
 	"os"
 	"os/exec"
 	"path/filepath"
+	"regexp"
 	"sort"
 	"strings"
 )
@@ -99,7 +100,7 @@ func Report(opt *Options, rep *CheckReport, notCovered []string) int {
 			continue
 		}
 		// failed
-		if f := matchFinding(findings, opt.Property, o); f != nil {
+		if f := matchFinding(findings, opt.Property, o); f != nil && newInputOutsideFinding(opt, o, f, replayDir) == "" {
 			usedFinding[f.Raw] = true
 			fmt.Printf("KNOWN-FINDING: property=%s %s %s\n", opt.Property, o.Name, f.Text)
 			samples = append(samples, map[string]any{"name": o.Name, "result": "known-finding", "finding": f.Text})
@@ -122,7 +123,11 @@ func Report(opt *Options, rep *CheckReport, notCovered []string) int {
 			rec["smt"] = smt
 		}
 		input := ""
-		if rp := replayerFor(opt.Property + ":" + o.Name); rp != nil {
+		if o.NewInput != "" {
+			input = o.NewInput
+			rec["failing_input"] = input
+			rec["replay_log"] = truncate(o.NewInputLog, 8000)
+		} else if rp := replayerFor(opt.Property + ":" + o.Name); rp != nil {
 			var log string
 			input, log = rp(opt, o, replayDir)
 			rec["replay_log"] = truncate(log, 8000)
@@ -167,6 +172,50 @@ func Report(opt *Options, rep *CheckReport, notCovered []string) int {
 	}
 	fmt.Printf("%s: %d/%d obligations discharged, %d violations, %d path queries, %.1fs wall, %.1fs solver\n", opt.Property, discharged, total, violations, rep.NQueries, rep.Wall, float64(rep.SolverMs)/1000)
 	return exit
+}
+
+// newInputOutsideFinding: a recorded finding stands for the failing inputs it describes. Where a replay
+// harness exists and the finding carries a `match=` pattern, the harness is run and a reported failing
+// input that does not match the pattern is a NEW violation of the same obligation (returned, and then
+// reported as such); no harness, no pattern or no output leaves the finding as recorded.
+var replayCache = map[string]string{}
+
+func newInputOutsideFinding(opt *Options, o *Obligation, f *Finding, replayDir string) string {
+	if f.Match == "" || opt.Tier != "thorough" {
+		// quick tier: the finding suppresses its obligation by name; the thorough tier also replays
+		return ""
+	}
+	rp := replayerFor(opt.Property + ":" + o.Name)
+	if rp == nil {
+		return ""
+	}
+	re, err := regexp.Compile(f.Match)
+	if err != nil {
+		fmt.Printf("warning: known_findings: bad match pattern %q: %v\n", f.Match, err)
+		return ""
+	}
+	fn := o.Name
+	if i := strings.Index(fn, "#"); i >= 0 {
+		fn = fn[:i]
+	}
+	log, ok := replayCache[fn]
+	if !ok {
+		_, log = rp(opt, o, replayDir)
+		replayCache[fn] = log
+	}
+	for _, l := range strings.Split(log, "\n") {
+		i := strings.Index(l, "FAILING-INPUT")
+		if i < 0 {
+			continue
+		}
+		in := strings.TrimSpace(l[i+len("FAILING-INPUT"):])
+		if !re.MatchString(in) {
+			o.Detail = "a failing input outside the recorded finding: " + in
+			o.NewInput, o.NewInputLog = in, log
+			return in
+		}
+	}
+	return ""
 }
 
 func replayerFor(obl string) Replayer {
